@@ -106,14 +106,15 @@ func (pj *ParsedJson) stringAt(offset, length uint64) (string, error) {
 // stringByteAt returns a string at a specific offset in the stringbuffer.
 func (pj *ParsedJson) stringByteAt(offset, length uint64) ([]byte, error) {
 	if offset&STRINGBUFBIT == 0 {
-		if offset+length > uint64(len(pj.Message)) {
+		// Written so offset+length cannot wrap around.
+		if offset > uint64(len(pj.Message)) || length > uint64(len(pj.Message))-offset {
 			return nil, fmt.Errorf("string message offset (%v) outside valid area (%v)", offset+length, len(pj.Message))
 		}
 		return pj.Message[offset : offset+length], nil
 	}
 
 	offset = offset & STRINGBUFMASK
-	if offset+length > uint64(len(pj.Strings.B)) {
+	if offset > uint64(len(pj.Strings.B)) || length > uint64(len(pj.Strings.B))-offset {
 		return nil, fmt.Errorf("string buffer offset (%v) outside valid area (%v)", offset+length, len(pj.Strings.B))
 	}
 	return pj.Strings.B[offset : offset+length], nil
@@ -812,7 +813,7 @@ func (i *Iter) Root(dst *Iter) (Type, *Iter, error) {
 	if i.t != TagRoot {
 		return TypeNone, dst, errors.New("value is not root")
 	}
-	if i.cur > uint64(len(i.tape.Tape)) {
+	if i.cur > uint64(len(i.tape.Tape)) || i.cur == 0 {
 		return TypeNone, dst, errors.New("root element extends beyond tape")
 	}
 	if dst == nil {
